@@ -199,6 +199,7 @@ def observe(sc, want_summary=False, keep=False):
     try:
         argv, paths = materialise(sc, root)
         code, out, err, wall, pid = run_scrut(argv, root)
+        pid_main = pid
         # give detached commands a moment to write their marker, then make sure nothing survives
         if any(tc["det"] for i in range(len(sc["docs"])) for tc in assembled(sc, i)):
             time.sleep(0.4)
@@ -274,6 +275,19 @@ def observe(sc, want_summary=False, keep=False):
             elif code2 != code:
                 obs["sumok"] = False
                 obs["summary"] = f"exit status differs between renderers: json {code}, pretty {code2}"
+        # step events of hooks H2 / H3 (the matcher's H1 events in the same file are not used here)
+        tpath = os.path.join(root, "trace.ndjson")
+        events = []
+        if os.path.exists(tpath):
+            for line in open(tpath, errors="replace"):
+                if '"ev":"DocStart"' in line or '"ev":"PickLimit"' in line or '"ev":"ExecEnd"' in line:
+                    try:
+                        e = json.loads(line)
+                        if e.get("pid") == pid_main:
+                            events.append(e)
+                    except ValueError:
+                        pass
+        obs["events"] = events
         kill_group(pid)
         if keep:
             obs["root"] = root
